@@ -28,8 +28,9 @@ impl TypeLayout { #[verifier::external_body] pub fn is_optional(&self) -> (r: (b
 // an ill-typed program is rejected; a value that may be nil is ill-typed where the type does not admit nil) -- neither is nil-able unless
 // the declared type is
 pub open spec fn pair_typed(p: (Value, Value), m: &MapType, input: &Node) -> bool {
-    &&& (fits(vtype(&p.0, input), map_key_type(m), input) || fits(map_key_type(m), vtype(&p.0, input), input))
-    &&& (fits(vtype(&p.1, input), map_value_type(m), input) || fits(map_value_type(m), vtype(&p.1, input), input))
+    // the declared type is the EXPECTED side, the key / value written the SUPPLIED one (D84: the two were swapped)
+    &&& fits(map_key_type(m), vtype(&p.0, input), input)
+    &&& fits(map_value_type(m), vtype(&p.1, input), input)
     &&& !(may_be_nil(vtype(&p.0, input)) && !may_be_nil(map_key_type(m)))
     &&& !(may_be_nil(vtype(&p.1, input)) && !may_be_nil(map_value_type(m)))
 }
@@ -61,6 +62,8 @@ def build(repo):
         Rule("R13", "errors . append ( & mut $e )", "errs_append ( & mut errors , & mut $e )", why="Vec::append"),
         Rule("R6", "let maybe_class_type = { $$b } ;", "", why="class context: only feeds the type checks"),
         Rule("R6", "$v . for_type ( & TypecheckFlags :: use_class ( maybe_class_type . as_ref ( ) ) ) . unwrap ( )", "value_type_of ( & $v , & input )", why="Value::for_type in the literal's class context: abstract (assumed not to fail on a parsed value)"),
+        Rule("R6", "map_type . $kt ( ) . eq_complex ( $$b , & TypecheckFlags :: use_class ( maybe_class_type . as_ref ( ) ) , )", "eq_complex_in ( map_type . $kt ( ) , $$b , & input )", why="TypeLayout::eq_complex in the literal's class context: abstract relation, direction kept"),
+        Rule("R6", "map_type . $kt ( ) . eq_complex ( $$b , & TypecheckFlags :: use_class ( maybe_class_type . as_ref ( ) ) )", "eq_complex_in ( map_type . $kt ( ) , $$b , & input )", why="TypeLayout::eq_complex in the literal's class context: abstract relation, direction kept"),
         Rule("R6", "$a . eq_complex ( $$b , & TypecheckFlags :: use_class ( maybe_class_type . as_ref ( ) ) , )", "eq_complex_in ( & $a , $$b , & input )", why="TypeLayout::eq_complex in the literal's class context: abstract relation, direction kept"),
         Rule("R6", "$a . eq_complex ( $$b , & TypecheckFlags :: use_class ( maybe_class_type . as_ref ( ) ) )", "eq_complex_in ( & $a , $$b , & input )", why="TypeLayout::eq_complex in the literal's class context: abstract relation, direction kept"),
         Rule("R3", "errors . push ( new_err ( $$c ) )", "errors . push ( VErr )", why="diagnostic text dropped"),
@@ -86,4 +89,4 @@ fn main() {{}}
 
 
 UNITS = [VUnit("c15_map_init", ["C15", "C13", "C03", "C02"], "map literal: the parser keeps the pairs as written", build)]
-UNITS[0].assumes = ["pest API and Parser::value abstract; TypeLayout::eq_complex and is_optional abstract (eq_complex as a relation whose direction is not fixed by this contract); Value::for_type(..).unwrap() on a parsed value is assumed not to fail (not under contract)", "a failing sub-parser reports at least one error (else the pair would be dropped silently)"]
+UNITS[0].assumes = ["pest API and Parser::value abstract; TypeLayout::eq_complex and is_optional abstract (eq_complex as a relation: expected type first); Value::for_type(..).unwrap() on a parsed value is assumed not to fail (not under contract)", "a failing sub-parser reports at least one error (else the pair would be dropped silently)"]
